@@ -205,7 +205,8 @@ def reader_cases(n):
              ("con1", n, [(f"b{i}", r) for i, r in enumerate(rot)])]
     # a ballot identifier repeated inside one contest (a re-scanned / corrected record): the later row stands
     rep = [("con1", n, [(f"b{i}", r) for i, r in enumerate(alpha)] + [(f"b{i}", alpha[(i * 3 + 1) % len(alpha)]) for i in range(0, len(alpha), 3)])]
-    out = {"one": one, "two-shared-ids": two, "two-reversed-header": inter, "id-repeated-in-contest": rep, "one-blank-ballots-with-trailing-comma": one}
+    out = {"one": one, "two-shared-ids": two, "two-reversed-header": inter, "id-repeated-in-contest": rep, "one-blank-ballots-with-trailing-comma": one,
+           "one-no-final-newline": one}
     if n == 3:  # thousands of rows: every ballot's two rows are thousands of lines apart, some identifiers come back much later
         K = 7000
         out["two-shared-ids-thousands-of-rows"] = [
@@ -217,6 +218,8 @@ def reader_cases(n):
 def judge_readers(n, layout):
     spec = reader_cases(n)[layout]
     text = raire_file_text(spec, blank_trailing_comma=layout.endswith("trailing-comma"))
+    if layout.endswith("no-final-newline"):
+        text = text.rstrip("\n")
     try:
         cvs, n_read, n_unique, contests, rcvrs = read_both(text)
     except Exception as e:  # noqa
